@@ -1,11 +1,18 @@
 // c09: correspondence + monitors for properties C09 (precompile calls are all-or-nothing with their
 // EVM frame) and C10 (precompiles act only for their direct caller, only in a writable context).
 // VERIF_PROP selects the property (default C09).
+// VERIF_MODE=replay with VERIF_REPLAY=<replay.json>: re-run the recorded (property, seed, tier) — generation is
+// deterministic in the seed, so the recorded failing tree / call is executed again — and print the failures.
 package main
 
 import (
+	"encoding/json"
+	"fmt"
 	"math/big"
 	"os"
+	"path/filepath"
+
+	"fxverif/lib"
 )
 
 func modeSearch() bool { return os.Getenv("VERIF_MODE") == "search" }
@@ -13,10 +20,39 @@ func modeSearch() bool { return os.Getenv("VERIF_MODE") == "search" }
 func bigU(n uint64) *big.Int { return new(big.Int).SetUint64(n) }
 
 func main() {
-	switch os.Getenv("VERIF_PROP") {
+	prop := os.Getenv("VERIF_PROP")
+	replay := os.Getenv("VERIF_MODE") == "replay" && os.Getenv("VERIF_REPLAY") != ""
+	if replay {
+		b, err := os.ReadFile(os.Getenv("VERIF_REPLAY"))
+		lib.Must(err)
+		var r struct {
+			Property string `json:"property"`
+			Seed     int64  `json:"seed"`
+			Tier     string `json:"tier"`
+		}
+		lib.Must(json.Unmarshal(b, &r))
+		prop = r.Property
+		os.Setenv("VERIF_SEED", fmt.Sprint(r.Seed))
+		os.Setenv("VERIF_TIER", r.Tier)
+	}
+	switch prop {
 	case "C10":
 		runC10()
 	default:
 		runC09()
+	}
+	if replay {
+		b, err := os.ReadFile(filepath.Join(lib.OutDir(), "harness.json"))
+		lib.Must(err)
+		var rep struct {
+			Failures []lib.Failure `json:"failures"`
+		}
+		lib.Must(json.Unmarshal(b, &rep))
+		for _, f := range rep.Failures {
+			fmt.Printf("%s: %s [%s]\n", f.Kind, f.What, f.Sig)
+		}
+		if len(rep.Failures) > 0 {
+			os.Exit(1)
+		}
 	}
 }
